@@ -428,8 +428,30 @@ func runC15Mod2(c *Ctx) {
 	problem, undec := "", ""
 	for _, e := range []bool{false, true} {
 		for _, cl := range []bool{false, true} {
-			m := &Model{Num: map[string]float64{}, Bool: map[string]bool{"geom.(LineString).IsEmpty($0)": e, "geom.(LineString).IsClosed($0)": cl}, Missing: map[string]bool{}}
-			it := &k4interp{p: c.P, m: m, mem: map[string]k4val{}}
+			if e && cl {
+				continue // an empty line is not closed
+			}
+			// the line is modelled one level down (3 points, first and last equal iff closed), so that
+			// IsEmpty / IsClosed may be called or written out
+			m := &Model{Num: map[string]float64{}, Bool: map[string]bool{}, Missing: map[string]bool{}}
+			ln := 3.0
+			if e {
+				ln = 0
+			}
+			m.Num["geom.(Sequence).Length($0.seq)"] = ln
+			m.Num["geom.(Sequence).Length(geom.(LineString).Coordinates($0))"] = ln
+			for _, acc := range []string{"geom.(Sequence).GetXY($0.seq,%d)", "geom.(Sequence).GetXY(geom.(LineString).Coordinates($0),%d)"} {
+				m.Num[fmt.Sprintf(acc, 0)+".X"], m.Num[fmt.Sprintf(acc, 0)+".Y"] = 1, 2
+				if cl {
+					m.Num[fmt.Sprintf(acc, 2)+".X"], m.Num[fmt.Sprintf(acc, 2)+".Y"] = 1, 2
+				} else {
+					m.Num[fmt.Sprintf(acc, 2)+".X"], m.Num[fmt.Sprintf(acc, 2)+".Y"] = 5, 2
+				}
+			}
+			it := &k4interp{p: c.P, m: m, mem: map[string]k4val{}, inline: func(g *ssa.Function) bool {
+				n := FuncName(g)
+				return n == "geom.(LineString).IsEmpty" || n == "geom.(LineString).IsClosed"
+			}}
 			// the points handed to NewMultiPoint, however the list was built (literal, make + stores, appends)
 			var members []string
 			it.onOpaque = func(name string, args []k4val) {
